@@ -233,6 +233,10 @@ Definition prog_stopper : list instr :=
 (* _receive_signal, any number of times *)
 Definition prog_env : list instr := [ Acq 0; SetQ true; NotifyCv; Rel 0; Jmp 0 ].
 Definition prog_noenv : list instr := [ Halt ].
+(* another (non-task) thread blocked in get_next_signal(timeout=None) on the SAME receiver: a second
+   waiter on the queue condition *)
+Definition prog_reader : list instr :=
+  [ Acq 0; ReadQ; JmpIf 5; WaitCv false; Jmp 1; SetQ false; Rel 0; Halt ].
 
 (* get_next_signal(timeout) called by the task thread (timed = timeout is not None) *)
 Definition prog_getsig (timed : bool) : list instr :=
@@ -284,16 +288,19 @@ Definition prog_loop : list instr :=
   [ (*0*) MarkLate; (*1*) ReadFlag; (*2*) JmpIf 8; (*3*) EvWait true; (*4*) JmpIf 6; (*5*) Jmp 1;
     (*6*) Mark 0; (*7*) Jmp 8; (*8*) Mark 1; (*9*) Halt ].
 
-Inductive variant := VSleep | VGetSig | VGetSigTimed | VLoop.
+Inductive variant := VSleep | VGetSig | VGetSigTimed | VLoop | VGetSigReader | VGetSigTimedReader.
 
 Definition progs (v : variant) (env : bool) (t : tid) : list instr :=
   match t with
   | TS => prog_stopper
-  | TE => if env then prog_env else prog_noenv
+  | TE => match v with
+          | VGetSigReader | VGetSigTimedReader => prog_reader
+          | _ => if env then prog_env else prog_noenv
+          end
   | TW => match v with
           | VSleep => prog_sleep
-          | VGetSig => prog_getsig false
-          | VGetSigTimed => prog_getsig true
+          | VGetSig | VGetSigReader => prog_getsig false
+          | VGetSigTimed | VGetSigTimedReader => prog_getsig true
           | VLoop => prog_loop
           end
   end.
